@@ -364,8 +364,15 @@ def reader_one(ctx, no, tie, rng, mode):
                        "reading gives %s" % (a[:60], b[:60]))
             return True
         return a.startswith("exc:")
-    tie.add_checked("msg %d (%s)" % (no, mode), ["frommsg " + " ".join(M)],
-                    [out], cb)
+    lines, obs = ["frommsg " + " ".join(M)], [out]
+    if mode == "closed":
+        # the hypothesis of C02_reader_accepts is met by what is tested
+        lines.append("closed " + " ".join(M))
+        obs.append("1")
+    elif forward and ir is None:
+        lines.append("closed " + " ".join(M))
+        obs.append("0")
+    tie.add_checked("msg %d (%s)" % (no, mode), lines, obs, cb)
 
 
 class CheckedTie(core.BatchTie):
